@@ -249,7 +249,10 @@ class Exec:
                 raise CheckerError(f'unsupported declaration {d.get("kind")} at parsing.h:{line_of(st)}')
             init = [c for c in d.get('inner', []) if 'kind' in c]
             ty = d['type']['qualType']
-            if init:
+            static = d.get('storageClass') == 'static'
+            if static:
+                v = self.model.declare(self, d['name'], ty, init[0] if init else None, env, static=True)
+            elif init:
                 v = self.model.declare(self, d['name'], ty, init[0], env)
             else:
                 v = self.model.declare(self, d['name'], ty, None, env)
@@ -490,6 +493,8 @@ class Exec:
     def ev_CallExpr(self, e, env):
         fn = strip_casts(e['inner'][0])
         name = fn.get('referencedDecl', {}).get('name')
+        if name is not None and name in env and isinstance(env[name], Abstract) and env[name].kind == 'fnptr':
+            name = None
         if name is None:
             f = self.ev(e['inner'][0], env)
             return self.model.call_value(self, f, [self.ev(a, env) for a in e['inner'][1:]], e)
@@ -499,6 +504,9 @@ class Exec:
         return self.model.lambda_(self, e, env)
 
     def ev_CXXThrowExpr(self, e, env):
+        if getattr(self.model, 'throw_ok', None) is not None:
+            from contracts.parsing_h import LambdaThrow
+            raise LambdaThrow()
         raise CheckerError('throw outside a modelled lambda')
 
     def ev_CXXDefaultArgExpr(self, e, env):
